@@ -126,7 +126,7 @@ def classify_update_site(ctx: Ctx, fn, c: ast.Call) -> Tuple[Optional[str], str]
     keys = set(kw)
     if keys == {"hold_updates"}:
         return "hold-only", "only hold_updates"
-    if keys == {"balance_updates", "hold_updates"}:
+    if keys in ({"balance_updates", "hold_updates"}, {"balance_updates"}):     # an omitted hold_updates is an empty one
         b = kw["balance_updates"]
         if isinstance(b, ast.Name) and b.id in fn.params:
             return "fill", f"balance_updates is parameter '{b.id}' (callers checked separately)"
